@@ -153,6 +153,15 @@ let () =
            let st r = let s = snd (fst r) in (s.s_cnt, s.s_sum) in
            Printf.printf "A %s %s | B %s %s | S step=%d %s\n"
              (steps (snd a)) (grids (st a)) (steps (snd b)) (grids (st b)) (int_of_z (fst f)) (grids (snd f))
+         | "HISTR" ->
+           let kk = nf () in let pi = nf () in let sigma = nf () in let lower = nf () in let width = nf () in
+           let nr = ni () in let refp = nflist nr in
+           let it0 = nz () in let t = ni () in let k = ni () in let m_ = ni () in
+           let h = List.init t (fun _ -> nflist m_) in
+           let c = { hr_k = kk; hr_pi = pi; hr_sigma = sigma; hr_lower = lower; hr_width = width; hr_ref = refp } in
+           protocol (histrestraint_machine fops) c it0 h k
+             (fun (e, f) -> Printf.sprintf "E=%s F=%s" (hex e) (hexl f))
+             (fun () -> "none")
          | "EABF" ->
            let dt = nf () in let mass = nf () in let kx = nf () in
            let lang = nb () in let gf = nf () in let sigma = nf () in
